@@ -32,6 +32,7 @@ def declare(rep):
     rep.rule("C19.writer-reentrant", "the two files of a pair are written by concurrent OpenMP sections: no function on their cone formats through a mutable function-local static buffer (the files would contain each other's numbers)", floor=1)
     rep.rule("C19.rows-reach-file", "the statistics rows written by a call of write_data are in the file when the call returns: the std::ofstream they are streamed to is a local (closed when it goes out of scope) or is flushed / closed before the function returns", floor=1)
     rep.rule("C19.fresh-output", "every directory solver::solver creates for the output files is emptied first: each create_directories(P) is preceded by a remove_all of P or of a folder that contains P - files of an earlier, longer run would otherwise stay next to the new ones (unpaired, with numbers beyond K)", floor=3)
+    rep.rule("C19.finite-tokens", "a cell quantity that can be infinite by design (it receives a parameter for which the parameter file accepts INF) is written to the data files and the statistics table only under std::isfinite: `inf` is not a number the VTK float arrays may contain", floor=1)
     rep.rule("C19.file-number", "file number = floor(t/S)+1, written only on change, both paths from the same stored number, current population", floor=3)
 
 
@@ -194,10 +195,85 @@ def fresh_output(rep, prog):
                           "solver::solver creates '%s' without first removing it (or a folder that contains it): when the output folder already holds the result of an earlier, longer run, its files result_k.vtk with k beyond the last file of this run stay there - the face and cell files are then no longer in pairs numbered 1..K" % p_txt[-60:])
 
 
+def finite_tokens(rep, prog):
+    # parameters for which the reader accepts INF: fields assigned numeric_limits::infinity() in parameter_reader
+    inf_params = set()
+    for fn in prog.repo_functions():
+        if fn.get("cls") != "parameter_reader" or not isinstance(fn.get("body"), dict):
+            continue
+        for a in walk(fn["body"]):
+            if a.get("k") in ("BinaryOperator", "CXXOperatorCallExpr") and a.get("op") == "=":
+                lhs = strip(a["c"][0] if a["k"] == "BinaryOperator" else a["c"][1])
+                rhs = a["c"][-1]
+                if lhs.get("k") == "MemberExpr" and (lhs.get("ref") or {}).get("dk") == "Field" and any(is_call(x) and "infinity" in x.get("callee", "") for x in walk(rhs)):
+                    inf_params.add(lhs["ref"]["name"])
+    # the reader may write INF as a branch: field = infinity() in one arm
+    if not inf_params:
+        raise AnalysisBroken("no parameter with an INF value found in parameter_reader")
+    # cell fields that receive such a parameter unchanged
+    inf_fields = set()
+    for fn in prog.repo_functions():
+        if fn.get("cls") != "cell" or not isinstance(fn.get("body"), dict):
+            continue
+        for a in walk(fn["body"]):
+            if a.get("k") == "BinaryOperator" and a.get("op") == "=":
+                lhs, rhs = strip(a["c"][0]), strip(a["c"][1])
+                while rhs.get("k") in ("ImplicitCastExpr", "ParenExpr") and rhs.get("c"):
+                    rhs = strip(rhs["c"][0])
+                if lhs.get("k") == "MemberExpr" and (lhs.get("ref") or {}).get("dk") == "Field" and rhs.get("k") == "MemberExpr" and (rhs.get("ref") or {}).get("name") in inf_params:
+                    # not when the assignment is made because a (finite) quantity exceeds the parameter: the parameter is finite there
+                    fi_c = prog.index(fn)
+                    bounded = any(x.get("k") == "BinaryOperator" and x.get("op") in ("<", "<=", ">", ">=") and rhs["ref"]["name"] in render(x) for cond, pol in fi_c.guards(a) for x in walk(cond))
+                    if not bounded:
+                        inf_fields.add(lhs["ref"]["name"])
+    getters = set()
+    for fn in prog.repo_functions():
+        if fn.get("cls") == "cell" and isinstance(fn.get("body"), dict) and fn["qn"].startswith("cell::get_"):
+            rets = [r for r in walk(fn["body"]) if r.get("k") == "ReturnStmt" and isinstance(r.get("value"), dict)]
+            if len(rets) == 1:
+                v = strip(rets[0]["value"])
+                while v.get("k") in ("ImplicitCastExpr", "ParenExpr") and v.get("c"):
+                    v = strip(v["c"][0])
+                if v.get("k") == "MemberExpr" and (v.get("ref") or {}).get("name") in inf_fields:
+                    getters.add(fn["qn"])
+    if not getters:
+        raise AnalysisBroken("no getter of a cell quantity that can be infinite found (parameters %s, fields %s)" % (sorted(inf_params), sorted(inf_fields)))
+    from ..model import facts_at
+    n = 0
+    for key in ("<init> cell_data_mapper_lst", "<init> file_data_mapper_lst", "<init> face_data_mapper_lst"):
+        init = prog.functions.get(key)
+        if init is None or not isinstance(init.get("body"), dict):
+            continue
+        fi = prog.index(init)
+        for c in walk(init["body"]):
+            if not (c.get("k") == "CallExpr" and c.get("callee") == "format_number" and call_args(c)):
+                continue
+            used = [x for x in walk(call_args(c)[0]) if x.get("k") == "CXXMemberCallExpr" and x.get("callee") in getters]
+            if not used:
+                continue
+            n += 1
+            g = used[0]["callee"]
+            guarded = False
+            for cond, pol in fi.guards(c, through_lambdas=False):
+                for x in walk(cond):
+                    if is_call(x) and x.get("callee", "").split("::")[-1] in ("isfinite",) and pol and any(y.get("k") == "CXXMemberCallExpr" and y.get("callee") == g for y in walk(x)):
+                        guarded = True
+                    if is_call(x) and x.get("callee", "").split("::")[-1] in ("isinf",) and not pol and any(y.get("k") == "CXXMemberCallExpr" and y.get("callee") == g for y in walk(x)):
+                        guarded = True
+            if guarded:
+                rep.ok("C19.finite-tokens", prog, init, c, "%s is formatted only when std::isfinite(%s())" % (g, g))
+            else:
+                rep.violation("C19.finite-tokens", prog, init, c, "a quantity that may be infinite is written unguarded",
+                              "%s formats %s() without an std::isfinite test: the quantity is infinite by design for cell types whose parameter (%s) is INF in the parameter file, and format_number then writes the token 'inf' into a float array of every data file - the file is no longer parseable as VTK" % (key[7:], g, ", ".join(sorted(inf_params))))
+    if n == 0:
+        raise AnalysisBroken("no data mapper formats a quantity that can be infinite (%s)" % sorted(getters))
+
+
 def run(rep, prog, tier):
     if not rep.rules:
         declare(rep)
     fresh_output(rep, prog)
+    finite_tokens(rep, prog)
     writer_reentrant(rep, prog)
     rows_reach_file(rep, prog)
     shapes = {}
